@@ -112,7 +112,7 @@ Proof. eexists; split; [vm_compute; reflexivity|]. split; discriminate. Qed.
 (* H11.3: the reclaiming snapshot renames the key file away and deletes the value file before
    the new ones exist: an untouched, previously persisted key is gone *)
 Example C11_reclaim_window_refuted :
-  w_get (w_crash w_recl ["a"; "b"; "$connections"; "$$token"] ScWrite 1) "b" = Some None /\
+  w_get (w_crash w_recl ["a"; "b"; "$connections"; "$$token"] ScWrite 2) "b" = Some None /\
   w_get (w_crash w_recl ["a"; "b"; "$connections"; "$$token"] ScRename 2) "b" = Some None.
 Proof. split; vm_compute; reflexivity. Qed.
 
